@@ -546,6 +546,13 @@ func txTokens(r *hx.Rng, x TxS, watch map[common.Address]bool) string {
 		}
 		return sb.String() + " r " + amt + " " + hx.Hex(common.FromHex(d.MinerId))
 	}
+	if x.Type == types.TransactionTypeMinerAdd {
+		var m types.Miner
+		if err := json.Unmarshal([]byte(x.Data), &m); err != nil {
+			return sb.String() + " j " + hx.Hex([]byte(x.Data))
+		}
+		return sb.String() + " a " + hx.Hex(m.Id) + " " + strconv.FormatUint(m.Stake, 10)
+	}
 	if ob, ok := observedBody[x.Hash]; ok {
 		return sb.String() + ob
 	}
@@ -787,7 +794,7 @@ func emitScenario(out *hx.Out, r *hx.Rng, sc *Scenario) {
 		}
 		for _, x := range o.receipts {
 			msg := hx.Hex([]byte(x.Msg))
-			if typeOf[x.TxHash] == types.TransactionTypeMinerRefund {
+			if t := typeOf[x.TxHash]; t == types.TransactionTypeMinerRefund || t == types.TransactionTypeMinerAdd {
 				msg = "-" // message text of miner transactions is not modelled
 			}
 			rc = append(rc, fmt.Sprintf("%s:%d:%s", hex.EncodeToString(x.TxHash.Bytes()), x.Status, msg))
@@ -1218,6 +1225,26 @@ func genScenario(r *hx.Rng, i int, allowOpaque bool) *Scenario {
 			sc.Txs = append(sc.Txs, x)
 		}
 	}
+	// miner add-stake transactions: zero, small, threshold-crossing and unaffordable amounts,
+	// unknown ids, broken payloads (the id is always present: without it the executor needs a signature)
+	for k := r.Pick(0, 0, 1, 2, 3); k > 0 && len(sc.Miners) > 0 && len(sc.Txs) < 12; k-- {
+		m := sc.Miners[r.Intn(len(sc.Miners))]
+		src := sc.Accounts[r.Intn(len(sc.Accounts))].Addr
+		delta := uint64(r.Pick(0, 1, 1, 2, 5, 100, 9007199254740993))
+		if r.Chance(1, 4) && m.Stake < 2001 {
+			delta = 2001 - m.Stake // just above the proposer minimum
+		}
+		id := unhex(m.Id)
+		if r.Chance(1, 8) {
+			id = []byte{0xde, 0xad}
+		}
+		d, _ := json.Marshal(types.Miner{Id: id, Stake: delta})
+		x := TxS{Source: "0x" + src, Type: 5, Hash: hex.EncodeToString(r.Bytes(32)), Data: string(d)}
+		if r.Chance(1, 12) {
+			x.Data = "[1"
+		}
+		sc.Txs = append(sc.Txs, x)
+	}
 	// receipts and observed EVM steps are matched to transactions by hash: keep hashes unique
 	seenHash := map[string]bool{}
 	for i := range sc.Txs {
@@ -1473,7 +1500,7 @@ func genHistorical(r *hx.Rng, i int, interpretedOnly bool) *Scenario {
 		sc.Miners, sc.Group, sc.Castor = nil, nil, ""
 		var keep []TxS
 		for _, x := range sc.Txs {
-			if x.Type != 4 && x.Type != 200 {
+			if x.Type != 4 && x.Type != 5 && x.Type != 200 {
 				keep = append(keep, x)
 			}
 		}
